@@ -406,9 +406,10 @@ def _trivial_body(m: ast.FunctionDef) -> bool:
 def _method_qualifies(m: ast.FunctionDef) -> bool:
     """A private helper method that can be read in place of its call: its only `return <value>` is its last statement
     (a function), or it has no `return` at all (a procedure, inlined where its call is a statement of its own)."""
-    if not m.name.startswith('_') or m.name.startswith('__') or m.decorator_list or m.args.vararg or m.args.kwarg or m.args.posonlyargs:
+    static = len(m.decorator_list) == 1 and ast.unparse(m.decorator_list[0]) == 'staticmethod'
+    if not m.name.startswith('_') or m.name.startswith('__') or (m.decorator_list and not static) or m.args.vararg or m.args.kwarg or m.args.posonlyargs:
         return False
-    if not m.args.args or not m.body or _trivial_body(m):
+    if (not m.args.args and not static) or not m.body or _trivial_body(m):
         return False
     is_function = isinstance(m.body[-1], ast.Return) and m.body[-1].value is not None
     body = [b for b in m.body if not (isinstance(b, ast.Expr) and isinstance(b.value, ast.Constant))]
@@ -609,7 +610,8 @@ def _inline_methods_in_class(c: ast.ClassDef, extra: Optional[Dict[str, ast.Func
 
     def expand(h: ast.FunctionDef, call: ast.Call, at: ast.stmt):
         """(statements, value expression) or None."""
-        fake = ast.FunctionDef(name=h.name, args=ast.arguments(posonlyargs=[], args=h.args.args[1:], vararg=None, kwonlyargs=h.args.kwonlyargs,
+        is_static = any(ast.unparse(d) == 'staticmethod' for d in h.decorator_list)
+        fake = ast.FunctionDef(name=h.name, args=ast.arguments(posonlyargs=[], args=(h.args.args if is_static else h.args.args[1:]), vararg=None, kwonlyargs=h.args.kwonlyargs,
                                                                kw_defaults=h.args.kw_defaults, kwarg=None, defaults=h.args.defaults), body=h.body, decorator_list=[])
         bound = _bind_args(fake, call)
         if bound is None:
@@ -698,6 +700,16 @@ def _inline_methods_in_class(c: ast.ClassDef, extra: Optional[Dict[str, ast.Func
                     if rv is None:
                         count += 1
                         continue
+                    if isinstance(s, ast.Assign) and len(s.targets) == 1 and isinstance(s.targets[0], ast.Name) and isinstance(rv, ast.Name) \
+                            and rv.id.startswith(f'{h.name}__') and rv.id != s.targets[0].id:
+                        # `T = self._m(...)` where the helper returns one of its own locals: that local *is* T - call it so
+                        tname = s.targets[0].id
+                        used = any(isinstance(x, ast.Name) and x.id == tname for st_ in stmts for x in ast.walk(st_))
+                        if not used:
+                            stmts2 = [_Rename({rv.id: tname}).visit(st_) for st_ in stmts]
+                            out[len(out) - len(stmts):] = [ast.fix_missing_locations(x) for x in stmts2]
+                            count += 1
+                            continue
                     if isinstance(s, ast.Assign):
                         new = ast.Assign(targets=s.targets, value=rv)
                     elif isinstance(s, ast.Return):
